@@ -230,6 +230,7 @@ class C18(Check):
     # -- setup -----------------------------------------------------------------
     def prepare(self):
         from .. import harness  # noqa: F401
+        opstub.init_session("c18")
         import admin.misc
         import admin.onboard
         import admin.dongle_admin
